@@ -105,11 +105,16 @@ func runC08(c *Ctx) {
 					id := p.CalleeID(call.Common())
 					// reads of the parameter by library functions that do not modify it
 					if id == "golang.org/x/crypto/hkdf.New" || id == "golang.org/x/crypto/curve25519.ScalarMult" && call.Common().Args[0] != ssa.Value(q) ||
-						id == "(*bytes.Buffer).Write" || id == "bytes.NewBuffer" || id == M("$M/common/ntor.ntorCommon") {
+						id == "(*bytes.Buffer).Write" || id == "bytes.NewBuffer" || id == M("$M/common/ntor.ntorCommon") ||
+						id == "builtin:append" { // append never changes the bytes visible through its first argument
+
 						continue
 					}
 					if sc := call.Common().StaticCallee(); sc != nil && p.inModule(sc) && p.aliasParam(sc) >= 0 {
 						continue
+					}
+					if call.Common().IsInvoke() && call.Common().Method.Name() == "Write" {
+						continue // io.Writer: "Write must not modify the slice data, even temporarily"
 					}
 				}
 				bad = fmt.Sprintf("parameter %s is written at %s", q.Name(), p.InstrPos(w.Instr))
